@@ -38,6 +38,17 @@ CHECKS["C05"] = {
     "explanation": "tables vs reference definitions (exhaustive) + MIR path rules",
 }
 
+CHECKS["C14"] = {
+    "module": "rules_c14",
+    "level": "other",
+    "quick_fs": ["default"],
+    "thorough_fs": ["default", "both"],
+    "technique": "MIR path rules with closure inlining: one forwarded call per wrapper method, argument/result pass-through, counter increment term vs declared stream effect",
+    "claim": "For all 36 trait-method implementations of CountBitReader/Writer and DbgBitReader/Writer: every returning path makes exactly one call of the same operation on the inner stream with the wrapper's own arguments and returns that result unchanged (transparency); for the 20 counting methods the counter's increment term on each Ok path (closures passed to Result::inspect are inlined) equals the operation's declared stream effect (n, x+1, len_code(x), returned count, 0 for peek/flush). Codes the wrappers do not override run on these primitives, so they are exact iff the primitives are. Err paths are not constrained (the property is silent there).",
+    "note": "Trusted: rustc MIR, exporter, std contract of Result::inspect (calls the closure with &T on Ok, returns self), declared effects table (DESIGN.md appendix B), exactness of len_* (C06).",
+    "explanation": "Structural over all wrapper methods: forwarding shape and symbolic counter increments on every path.",
+}
+
 NOT_APPLICABLE = {
     "C17": "a bijection over all values of six integer widths is a statement about (x>>1)^-(x&1) on 2^n values: the generic body is a chain of operator-trait calls with no table, pairing, ordering or ownership structure to check; proving the identity needs bit-vector reasoning (a solver) or running it, both outside static analysis (DESIGN.md section 6)",
 }
